@@ -71,7 +71,7 @@ func c09Invariants(where string, ts reference.Targets, parent *reference.Target,
 		start int
 	}
 	var numeric []sib
-	keys := map[string]bool{}
+	keys := map[string]string{}
 	for i := range ts {
 		t := &ts[i]
 		n++
@@ -118,10 +118,19 @@ func c09Invariants(where string, ts reference.Targets, parent *reference.Target,
 			}
 			if ok {
 				k := step.String()
-				if keys[k] {
-					bad("nested:duplicate-step", fmt.Sprintf("two nested targets %s%s", parent.Addr.String(), k))
+				here := "-"
+				if t.RangePtr != nil {
+					here = fmtRange(*t.RangePtr)
 				}
-				keys[k] = true
+				if prev, dup := keys[k]; dup {
+					// a key the source writes twice ({ foo = 1, foo = 2 }) is declared twice, at two places; what must
+					// not happen is two targets for one written item, or two elements with one list index
+					is, isIdx := step.(lang.IndexStep)
+					if prev == here || here == "-" || (isIdx && is.Key.Type() == cty.Number) {
+						bad("nested:duplicate-step", fmt.Sprintf("two nested targets %s%s (at %s and %s)", parent.Addr.String(), k, prev, here))
+					}
+				}
+				keys[k] = here
 				if is, isIdx := step.(lang.IndexStep); isIdx && is.Key.Type() == cty.Number && t.RangePtr != nil && t.RangePtr.End.Byte > t.RangePtr.Start.Byte {
 					f, _ := is.Key.AsBigFloat().Int64()
 					numeric = append(numeric, sib{int(f), t.RangePtr.Start.Byte})
